@@ -1,7 +1,8 @@
 import Mimium.Proofs.ModRes
 import Mimium.Gen.C17
 /-! Specification vocabulary of C17 (what the property theorems talk about), the fixtures of the repaired finding F12
-(`pub use` published a private member; /repo c6822e4 + 3b64798) and the witness of finding F12-cycle.
+(`pub use` published a private member; /repo c6822e4 + 3b64798), of the repaired finding F12-cycle, and the witness of
+finding F12-dup.
 Names used in fixtures: `0 = dsp`, `1 = a`, `2 = secret`, `3 = b`, `4 = p`, `5 = x`. -/
 namespace Mimium.ModRes
 
@@ -64,15 +65,22 @@ def f12order : List Item :=
   [.mod false 1 [.mod false 5 [.use true [1, 2] .single], .fn false 2 [] (.lit 7)],
    .fn false 0 [] (.call (.qvar [1, 5, 2]))]
 
-/-- finding **F12-cycle**: two re-exports that name each other.  `a::x::secret` is exported while `a$secret` is still
-unknown (recorded public, alias `a$x$secret → a$secret`); after the private `fn secret`, `pub use a::x::secret` exports
-the name `a$secret` *itself*, overwriting its visibility entry with the one of `a$x$secret` (public) and registering the
-alias `a$secret → a$x$secret`.  A reference `a::secret` then follows the alias cycle back to `a$secret`: the chain has
-not moved, so no target check, and the entry of the name says public:
+/-- the repaired finding **F12-cycle**: two re-exports that name each other.  `a::x::secret` is exported while `a$secret`
+is still unknown (recorded public, alias `a$x$secret → a$secret`); after the private `fn secret`, `pub use a::x::secret`
+exports the name `a$secret` *itself*.  Before the repair (`entry().or_insert`) that overwrote the function's visibility entry
+with the one of `a$x$secret` (public); the alias `a$secret → a$x$secret` closes a cycle, so a reference `a::secret` ends where it
+started, no target is checked, and the overwritten entry said public.  Now the entry of the declared function stays:
 `mod a { mod x { pub use a::secret }  fn secret(){7.0}  pub use a::x::secret }  fn dsp(){ a::secret() }` -/
 def f12cycle : List Item :=
   [.mod false 1 [.mod false 5 [.use true [1, 2] .single], .fn false 2 [] (.lit 7), .use true [1, 5, 2] .single],
    .fn false 0 [] (.call (.qvar [1, 2]))]
+
+/-- finding **F12-dup**: a reopened module declares the same mangled name twice, the last declaration wins in the
+visibility map, both definitions are emitted:
+`mod a { fn f(){1.0} }  fn probe(){ a::f() }  mod a { pub fn f(){2.0} }  fn dsp(){ probe() }` (names `4 = f`, `6 = probe`) -/
+def f12dup : List Item :=
+  [.mod false 1 [.fn false 4 [] (.lit 1)], .fn false 6 [] (.call (.qvar [1, 4])),
+   .mod false 1 [.fn true 4 [] (.lit 2)], .fn false 0 [] (.call (.var [6]))]
 
 /-- the flat, `$`-mangled name space is the path name space of the tree: the function events of the walk of a
 module tree are exactly its members, reached by walking the path. -/
